@@ -58,6 +58,8 @@ type c07Rec struct {
 	Timestamp  int32
 
 	SizeBytes int    // input only, never compared
+	epoch     int    // model bookkeeping: number of lease/DB barriers seen by the channel when stored
+	trusted   bool   // model bookkeeping: stored through a trusted-contiguous path
 	Enc       []byte // compat surface: canonical encoded payload, compared byte for byte
 }
 
@@ -117,6 +119,10 @@ type c07Chan struct {
 	GoneSeqs  []uint64
 
 	Leased bool
+	// Barriers lists, in order, the events after which the real store must
+	// rebuild or reload per-channel append state: "reclaim" (last lease closed
+	// and re-acquired), "evict" (warm state evicted, then re-acquired), "reopen".
+	Barriers []string
 
 	// history shape, for the non-triviality rule
 	cut, appendAfterCut, reopenAfterAppend bool
@@ -177,11 +183,17 @@ func (ch *c07Chan) lowSeq() uint64 { return ch.Ret.Physical + 1 }
 // expectAppend returns the outcome class a sequential log with uniqueness
 // constraints gives to this batch: "ok", "conflict", "id0".
 func (n *c07Node) expectAppend(ch *c07Chan, mode c07Mode, baseSeq uint64, recs []c07Rec, checksDup bool) (class string, why string) {
+	class, why, _ = n.expectAppendHolder(ch, mode, baseSeq, recs, checksDup)
+	return class, why
+}
+
+// expectAppendHolder additionally returns the stored row a rejected record collides with.
+func (n *c07Node) expectAppendHolder(ch *c07Chan, mode c07Mode, baseSeq uint64, recs []c07Rec, checksDup bool) (class string, why string, holder *c07Rec) {
 	if baseSeq != 0 && baseSeq != ch.LEO+1 {
-		return "conflict", "base"
+		return "conflict", "base", nil
 	}
 	if len(recs) == 0 {
-		return "ok", ""
+		return "ok", "", nil
 	}
 	seenID := map[uint64]bool{}
 	seenPair := map[c07Pair]bool{}
@@ -189,33 +201,42 @@ func (n *c07Node) expectAppend(ch *c07Chan, mode c07Mode, baseSeq uint64, recs [
 		rec := &recs[i]
 		seq := ch.LEO + 1 + uint64(i)
 		if rec.ID == 0 {
-			return "id0", "id0"
+			return "id0", "id0", nil
 		}
 		if !checksDup {
 			continue
 		}
 		if seenID[rec.ID] {
-			return "conflict", "batch-id"
+			return "conflict", "batch-id", nil
 		}
 		seenID[rec.ID] = true
 		if mode == c07Strict {
 			if loc, ok := n.IDs[rec.ID]; ok && (loc.Key != ch.Key || loc.Seq != seq) {
-				return "conflict", "stored-id"
+				return "conflict", "stored-id", n.rowAt(loc)
 			}
 		}
 		if p, ok := rec.pair(); ok {
 			if seenPair[p] {
-				return "conflict", "batch-pair"
+				return "conflict", "batch-pair", nil
 			}
 			seenPair[p] = true
 			if mode != c07Trusted {
 				if s, ok := ch.Pairs[p]; ok && s != seq {
-					return "conflict", "stored-pair"
+					return "conflict", "stored-pair", ch.Rows[s]
 				}
 			}
 		}
 	}
-	return "ok", ""
+	return "ok", "", nil
+}
+
+func (n *c07Node) rowAt(loc c07Loc) *c07Rec {
+	for _, c := range n.Chans {
+		if c.Key == loc.Key {
+			return c.Rows[loc.Seq]
+		}
+	}
+	return nil
 }
 
 // applyAppend stores the batch at leo+1...
@@ -228,6 +249,7 @@ func (n *c07Node) applyAppend(ch *c07Chan, recs []c07Rec) (base, last uint64) {
 		rec := recs[i]
 		rec.Seq = base + uint64(i)
 		rec.Payload = append([]byte(nil), rec.Payload...)
+		rec.epoch = len(ch.Barriers)
 		n.insertRow(ch, &rec)
 	}
 	ch.LEO = base + uint64(len(recs)) - 1
@@ -262,21 +284,15 @@ func (ch *c07Chan) expectTrim(through uint64, maxMsgs, maxBytes int) (del []uint
 	if hi > ch.LEO {
 		hi = ch.LEO
 	}
-	stopped := false
 	for seq := ch.lowSeq(); seq <= hi; seq++ {
 		row := ch.Rows[seq]
 		if row == nil {
 			continue
 		}
-		if stopped {
-			return del, true
-		}
 		if maxMsgs > 0 && len(del) >= maxMsgs {
-			stopped = true
 			return del, true
 		}
 		if maxBytes > 0 && len(del) > 0 && used+len(row.Payload) > maxBytes {
-			stopped = true
 			return del, true
 		}
 		used += len(row.Payload)
@@ -486,3 +502,18 @@ func c07Brief(r *c07Rec) map[string]any {
 	return map[string]any{"seq": r.Seq, "id": r.ID, "uid": r.FromUID, "no": r.ClientMsgNo, "payload_len": len(r.Payload),
 		"payload_head": fmt.Sprintf("%x", p), "hash": r.PayloadHash, "ts": r.TS, "chan": r.ChannelID, "type": r.ChannelType, "flags": r.Flags}
 }
+
+// c07Channels builds 2..6 channels whose keys are prefixes of one another or
+// contain separator / NUL bytes (hostile to prefix-span key layouts).
+func c07Channels(n int) []*c07Chan {
+	keys := []struct {
+		key, id string
+		typ     uint8
+	}{{"1:a", "a", 1}, {"1:ab", "ab", 1}, {"1:a\x00", "a\x00", 1}, {"2:a", "a", 2}, {"1:", "", 1}, {"用户:1", "用户", 255}}
+	out := make([]*c07Chan, 0, n)
+	for i := 0; i < n; i++ {
+		out = append(out, c07NewChan(keys[i].key, keys[i].id, keys[i].typ))
+	}
+	return out
+}
+
